@@ -18,6 +18,7 @@ impl Deserialize for ExUnits {
             let len = raw.array()?;
             let mut read_len = CBORReadLen::new(len);
             read_len.read_elems(2)?;
+            read_len.finish()?;
             let mem = (|| -> Result<_, DeserializeError> { Ok(BigNum::deserialize(raw)?) })()
                 .map_err(|e| e.annotate("mem"))?;
             let steps = (|| -> Result<_, DeserializeError> { Ok(BigNum::deserialize(raw)?) })()
